@@ -1,6 +1,7 @@
 /* positive controls for sa/lints.py: every pattern the lints look for must be found here on every run */
 #include <string.h>
 #include <stddef.h>
+#include <stdint.h>
 int lintbad_bool_length(const unsigned char *a, const unsigned char *b, size_t n)
 {
 	return memcmp(a, b, n != 0);        /* length argument is a truth value */
@@ -53,4 +54,26 @@ void lintgood_tail_copy(unsigned *acc, const void *data, size_t len)
 		}
 		*acc += src[0] + src[15];
 	}
+}
+
+/* word-codec-map-consistent: slot 1 absorbs two offsets, slot 0 none */
+static inline uint32_t br_dec32be(const void *p) { const unsigned char *b = p; return ((uint32_t)b[0] << 24) | ((uint32_t)b[1] << 16) | ((uint32_t)b[2] << 8) | b[3]; }
+static inline void br_enc32be(void *p, uint32_t x) { unsigned char *b = p; b[0] = x >> 24; b[1] = x >> 16; b[2] = x >> 8; b[3] = x; }
+void mixw(uint32_t *w);
+void lintbad_codec_map(unsigned char *y, const unsigned char *src)
+{
+	uint32_t yw[4];
+	yw[3] = br_dec32be(y); yw[2] = br_dec32be(y + 4); yw[1] = br_dec32be(y + 8); yw[0] = br_dec32be(y + 12);
+	yw[3] ^= br_dec32be(src); yw[2] ^= br_dec32be(src + 4); yw[1] ^= br_dec32be(src + 8); yw[1] ^= br_dec32be(src + 12);
+	mixw(yw);
+	br_enc32be(y, yw[3]); br_enc32be(y + 4, yw[2]); br_enc32be(y + 8, yw[1]); br_enc32be(y + 12, yw[0]);
+}
+void lintgood_codec_map(unsigned char *y, const unsigned char *src)
+{
+	uint32_t yw[4], q[4], iv0;
+	yw[3] = br_dec32be(y); yw[2] = br_dec32be(y + 4); yw[1] = br_dec32be(y + 8); yw[0] = br_dec32be(y + 12);
+	yw[3] ^= br_dec32be(src); yw[2] ^= br_dec32be(src + 4); yw[1] ^= br_dec32be(src + 8); yw[0] ^= br_dec32be(src + 12);
+	iv0 = br_dec32be(src + 16); q[0] = q[1] = iv0; q[2] = q[3] = br_dec32be(src + 20);
+	mixw(yw); mixw(q);
+	br_enc32be(y, yw[3]); br_enc32be(y + 4, yw[2]); br_enc32be(y + 8, yw[1]); br_enc32be(y + 12, yw[0]);
 }
